@@ -8,7 +8,7 @@
 //!
 //! Protocol (stateful; a case starts with `begin`):
 //!   begin <old> <new>                          -> ok
-//!   build simple                               -> ctl=d,e,s;… diff=<hex> extra=<hex> out=<n> | err:<class>
+//!   build simple                               -> ctl=d,e,s;… raw=<inflated control bytes> diff=<hex> extra=<hex> out=<n> | err:<class>
 //!   build chunked <max_diff_block_size>        -> same
 //!   build suffix <sa: comma separated | ->     -> same   (sa = suffix array of old)
 //!   apply mem <ctl-bytes> <diff> <extra> <out> -> <hex> | err:<class>
@@ -25,6 +25,8 @@ use verif_harness::*;
 
 #[derive(Clone, Debug, PartialEq)]
 struct Blocks {
+    /// inflated control block exactly as the builder wrote it
+    raw: Vec<u8>,
     ctl: Vec<(i64, i64, i64)>,
     diff: Vec<u8>,
     extra: Vec<u8>,
@@ -81,12 +83,12 @@ fn split_patch(patch: &[u8]) -> Result<Blocks, String> {
     }
     let diff = decompress_zlib(&patch[c1..d1]).map_err(|e| format!("diff zlib: {e}"))?;
     let extra = decompress_zlib(&patch[d1..]).map_err(|e| format!("extra zlib: {e}"))?;
-    Ok(Blocks { ctl, diff, extra, out: h.output_size })
+    Ok(Blocks { raw, ctl, diff, extra, out: h.output_size })
 }
 
 fn fmt_blocks(b: &Blocks) -> String {
     let c: Vec<String> = b.ctl.iter().map(|(d, e, s)| format!("{d},{e},{s}")).collect();
-    format!("ctl={} diff={} extra={} out={}", if c.is_empty() { "-".to_string() } else { c.join(";") }, hex(&b.diff), hex(&b.extra), b.out)
+    format!("ctl={} raw={} diff={} extra={} out={}", if c.is_empty() { "-".to_string() } else { c.join(";") }, hex(&b.raw), hex(&b.diff), hex(&b.extra), b.out)
 }
 
 /// assemble patch bytes from raw blocks (header written by hand, little-endian)
@@ -181,8 +183,24 @@ fn run_line(st: &mut St, toks: &[&str]) -> Option<String> {
             let p = make_patch(&unhex(c)?, &unhex(d)?, &unhex(e)?, out.parse().ok()?);
             apply_resp(apply(Mode::Stream(buf.parse().ok()?), &st.old, &p))
         }
+        ["apply", "streamc", caller, buf, c, d, e, out] => {
+            // the caller-supplied expected size differs from the header's (API probe)
+            let p = make_patch(&unhex(c)?, &unhex(d)?, &unhex(e)?, out.parse().ok()?);
+            apply_resp(apply_stream_caller(caller.parse().ok()?, buf.parse().ok()?, &st.old, &p))
+        }
         _ => return None,
     })
+}
+
+fn apply_stream_caller(caller: usize, buf: usize, old: &[u8], patch: &[u8]) -> Result<Vec<u8>, String> {
+    let r = catch(AssertUnwindSafe(|| {
+        ZbsdiffPatcher::new(Cursor::new(old.to_vec()), caller).with_buffer_size(buf).apply_patch_from_data(patch)
+    }));
+    match r {
+        Err(_) => Err("panic".into()),
+        Ok(Ok(v)) => Ok(v),
+        Ok(Err(e)) => Err(err_class(&e).to_string()),
+    }
 }
 
 fn build_resp(r: Result<Vec<u8>, String>) -> String {
@@ -494,7 +512,8 @@ fn main() {
                     if let (Some(out), false) = (out, r.starts_with("err") || r == "bad-op" || r == "panic") {
                         let n = if r == "-" { 0 } else { r.len() as i64 / 2 };
                         if n != out {
-                            s.oracle_fail("ok-length:replay", &format!("Ok output of {n} bytes, header says {out}"), &[l.clone()]);
+                            let sig = if toks[1] == "streamc" { "stream-size-from-caller" } else { "ok-length:replay" };
+                            s.oracle_fail(sig, &format!("Ok output of {n} bytes, header says {out}"), &[format!("begin {} {}", hex(&st.old), hex(&st.new)), l.clone()]);
                         }
                     }
                     if r == "panic" {
@@ -603,6 +622,29 @@ fn main() {
         let blks: Vec<usize> = vec![*rng.pick(&[0usize, 1, 4, 64]), *rng.pick(&[4usize, 7, 64, 1 << 20])];
         pair(&mut cx, &mut rng, &old, &new, &blks, "random");
     }
+    // 4b. API probe: streaming patcher built with an expected size other than the header's
+    for _ in 0..(if thorough { 40 } else { 8 }) {
+        let nlen = rng.range(1, 40) as usize;
+        let new = rng.bytes(nlen);
+        let olen = rng.below(20) as usize;
+        let old = rng.bytes(olen);
+        let begin = format!("begin {} {}", hex(&old), hex(&new));
+        emit(cx.s, &mut cx.st, begin.clone());
+        let c = ctl_bytes(&[(0, nlen as i64, 0)]);
+        for (caller, hdr) in [(nlen, nlen as i64), (nlen, nlen as i64 + 2), (nlen, nlen as i64 - 1), (nlen + 2, nlen as i64 + 2), (nlen + 1, nlen as i64)] {
+            let areq = format!("apply streamc {caller} 1024 {} - {} {hdr}", hex(&c), hex(&new));
+            let r = emit(cx.s, &mut cx.st, areq.clone());
+            cx.s.tally("probe.stream-caller-size");
+            cx.s.case(Some(&areq));
+            if !(r.starts_with("err") || r == "panic" || r == "bad-op") {
+                let n = if r == "-" { 0 } else { r.len() as i64 / 2 };
+                if n != hdr {
+                    cx.s.oracle_fail("stream-size-from-caller", &format!("ZbsdiffPatcher::new(old, {caller}).apply_patch_from_data returns Ok with {n} bytes for a patch whose header says {hdr}: the header's output_size is never compared"), &[begin.clone(), areq.clone()]);
+                }
+            }
+        }
+    }
+
     // 5. header guard: output size above the 1 GB limit is refused by both patchers
     {
         let begin = "begin 6162 6162".to_string();
